@@ -77,10 +77,6 @@ func init() {
 			}
 			return []*Val{fc.freshVal("sprintf", str)}
 		}},
-		"strconv.Itoa": {apply: func(fc *fctx, a []*Val, _ token.Pos) []*Val {
-			fc.tr.u.decl("itoa", "(declare-fun go_itoa (Int) String)")
-			return []*Val{mkVal("(go_itoa "+a[0].E()+")", "String", str)}
-		}},
 		"(*sync.Once).Do":         {apply: noop},
 		"(*sync.RWMutex).Lock":    {apply: noop},
 		"(*sync.RWMutex).Unlock":  {apply: noop},
